@@ -301,6 +301,18 @@ def r44(ctx, res):
         if not ok:
             res.violation("R4.4", m, m.node, "%s.intersection (%s) %s; it must return intersection(self, other)"
                           % (cname, m.short, why), construct=cname + ".intersection forwarding")
+        # ... for every operand type, None included: no raise of its own in front of the forwarding
+        from ..types import S as _S
+        for oname in list(GEOM7) + ["None"]:
+            sm = ctx.types.summary(m, (_S(cname), _S(oname)))
+            if sm is None:
+                continue
+            own = [x for x in walk_local(m.node) if isinstance(x, ast.Raise) and id(x) in sm.raises]
+            if own:
+                res.ob("R4.4", m.where(own[0]), "%s.intersection(%s)" % (cname, oname), False, "raises `%s`" % txt(own[0])[:50])
+                res.violation("R4.4", m, own[0], "%s.intersection(%s) raises (`%s`) instead of returning intersection(self, other): the method "
+                              "form is not defined for an operand type the function form supports" % (cname, oname, txt(own[0])[:60]),
+                              construct="%s.intersection(%s) raises" % (cname, oname))
     ctx.require(res, "R4.4", n, 6, "method forms")
 
 
@@ -948,6 +960,9 @@ def run(ctx, res):
     from ..coverage import check_collinearity_helper
     kc = check_collinearity_helper(ctx, res, "R4.10")
     ctx.require(res, "R4.10", kc, 2, "return sites of points_in_a_line")
+    # R4.11 the linear solver picks its pivot row by the pivot column and by magnitude (coverage.py)
+    from ..coverage import check_pivot_choice
+    check_pivot_choice(ctx, res, "R4.11")
     res.undecided_ob("for the 7 same-type pairs, that handler(a, b) and handler(b, a) denote the same set beyond the swap closure "
                      "of the consulted candidate families (numeric)")
     res.extra["functions_analysed"] = len(scope_functions(ctx))
